@@ -6,6 +6,7 @@ package main
 
 import (
 	"fmt"
+	"math/big"
 	"strings"
 
 	"cvh/lib"
@@ -54,7 +55,10 @@ type gen struct {
 	cur      *txn
 	counts   map[string]int
 	nextLeaf int64
+	hugeLeft int // how many more non-inlinable Int leaves this program may introduce
 }
+
+var hugeExps = []uint{600, 2100, 3900, 4100, 4500, 6400, 7000}
 
 func (g *gen) count(k string) { g.counts[k]++ }
 
@@ -83,6 +87,12 @@ func (g *gen) lit(t *ty, depth int) *val {
 	switch t.k {
 	case "int":
 		v.n = g.leaf()
+		if g.hugeLeft > 0 && g.rng.Chance(1, 25) {
+			g.hugeLeft--
+			v.h = new(big.Int).Lsh(big.NewInt(1), hugeExps[g.rng.Intn(len(hugeExps))])
+			v.h.Add(v.h, big.NewInt(v.n))
+			g.count("huge-int-leaf")
+		}
 	case "arr":
 		n := g.rng.Intn(3)
 		if t.elem.k == "int" {
